@@ -472,24 +472,29 @@ def _names_in_schema(schema, namespace, defined, referenced):
         referenced.append(schema)
 
 
-def _inline_definitions(schema, namespace, missing, named_schemas):
-    """Copy of schema in which the first reference to each name in `missing`
-    is replaced by its definition from named_schemas"""
+def _inline_definitions(schema, namespace, defined, named_schemas):
+    """Copy of schema in which every named type is defined exactly once, at
+    its first use: a reference to a name not defined so far is replaced by its
+    definition from named_schemas, and a definition of a name that was already
+    defined (inlined earlier) by a reference to it"""
     if isinstance(schema, list):
         return [
-            _inline_definitions(s, namespace, missing, named_schemas) for s in schema
+            _inline_definitions(s, namespace, defined, named_schemas) for s in schema
         ]
     elif isinstance(schema, dict):
         schema_type = schema.get("type")
         if schema_type in NAMED_TYPES:
-            namespace, _ = schema_name(schema, namespace)
+            namespace, fullname = schema_name(schema, namespace)
+            if fullname in defined:
+                return fullname
+            defined.add(fullname)
         copy = dict(schema)
         if "fields" in schema and schema_type != "enum":
             copy["fields"] = [
                 dict(
                     field,
                     type=_inline_definitions(
-                        field["type"], namespace, missing, named_schemas
+                        field["type"], namespace, defined, named_schemas
                     ),
                 )
                 if isinstance(field, dict) and "type" in field
@@ -499,22 +504,21 @@ def _inline_definitions(schema, namespace, missing, named_schemas):
         for key in ("items", "values"):
             if key in schema:
                 copy[key] = _inline_definitions(
-                    schema[key], namespace, missing, named_schemas
+                    schema[key], namespace, defined, named_schemas
                 )
         return copy
     elif isinstance(schema, str) and schema not in AVRO_TYPES:
         name = schema
         if "." not in name and namespace:
             name = namespace + "." + name
-        if name in missing:
-            missing.discard(name)
+        if name not in defined and name in named_schemas:
             definition = {
                 key: value
                 for key, value in named_schemas[name].items()
                 if key not in ("__fastavro_parsed", "__named_schemas")
             }
             # Definitions in named_schemas are parsed: their names are full
-            return _inline_definitions(definition, "", missing, named_schemas)
+            return _inline_definitions(definition, "", defined, named_schemas)
     return schema
 
 
@@ -526,21 +530,9 @@ def _self_contained_schema(schema, named_schemas):
     defined = set()
     referenced = []
     _names_in_schema(schema, "", defined, referenced)
-    todo = list(referenced)
-    missing = set()
-    while todo:
-        name = todo.pop()
-        if name in defined or name in missing or name not in named_schemas:
-            continue
-        missing.add(name)
-        # what the missing definition refers to may be missing as well
-        inner_defined = set()
-        inner_referenced = []
-        _names_in_schema(named_schemas[name], "", inner_defined, inner_referenced)
-        todo.extend(inner_referenced)
-    if not missing:
+    if all(name in defined or name not in named_schemas for name in referenced):
         return schema
-    return _inline_definitions(schema, "", missing, named_schemas)
+    return _inline_definitions(schema, "", set(), named_schemas)
 
 
 class GenericWriter(ABC):
